@@ -1,6 +1,7 @@
 package c03
 
 import (
+	"bytes"
 	"context"
 	"encoding/base64"
 	"fmt"
@@ -369,6 +370,16 @@ func replayConc(r *common.Run, f []string) error {
 		}
 	}
 	switch f[0] {
+	case "concm":
+		var sc [][]string
+		for _, x := range f[2:] {
+			if x == "-" {
+				sc = append(sc, nil)
+			} else {
+				sc = append(sc, strings.Split(x, ","))
+			}
+		}
+		return runConcMixed(r, sched, sc, "replay")
 	case "concs":
 		if len(f) < 4 {
 			return fmt.Errorf("bad concs line")
@@ -403,4 +414,206 @@ func replayConc(r *common.Run, f []string) error {
 		runConcClient(r, sched, us, "replay")
 	}
 	return nil
+}
+
+// ---- round E: sessions with DIFFERENT mechanisms and exchanges on one feature value ----
+//
+//	concm <sched> <script>…   receiving sessions on one xmpp.SASLServer(perm, PLAIN, X-ECHO);
+//	      script = the peer's elements (server-role event syntax, "," separated); every element
+//	      is a yield point (it is handed over when the schedule moves the session), so the
+//	      loops of the sessions interleave element by element.  X-ECHO takes two messages and
+//	      answers each with the reversed message (a challenge, then <success/> with data): what
+//	      a session writes depends on every byte it read, so a buffer, a negotiator or a
+//	      selected mechanism that leaks from one session into another shows.  perm accepts
+//	      user/secret.  Answer: per session "<authn> <err> <sent> <perms>", joined by " ; ".
+
+func echoMech() sasl.Mechanism {
+	rev := func(b []byte) []byte {
+		o := make([]byte, len(b))
+		for i := range b {
+			o[len(b)-1-i] = b[i]
+		}
+		return o
+	}
+	return sasl.Mechanism{
+		Name: "X-ECHO",
+		Start: func(*sasl.Negotiator) (bool, []byte, interface{}, error) {
+			return false, nil, nil, sasl.ErrInvalidState
+		},
+		Next: func(m *sasl.Negotiator, c []byte, _ interface{}) (bool, []byte, interface{}, error) {
+			switch m.State() & sasl.StepMask {
+			case sasl.AuthTextSent:
+				return true, rev(c), nil, nil
+			case sasl.ResponseSent:
+				return false, rev(c), nil, nil
+			}
+			return false, nil, nil, sasl.ErrTooManySteps
+		},
+	}
+}
+
+func runConcMixed(r *common.Run, sched []int, scripts [][]string, class string) error {
+	n := len(scripts)
+	S := nc.NewSched(n)
+	var mu sync.Mutex
+	perms := make([][]string, n)
+	perm := func(neg *sasl.Negotiator) bool {
+		i := S.Cur
+		u, p, id := neg.Credentials()
+		us, ps, ids := string(u), string(p), string(id)
+		v := us == "user" && ps == "secret"
+		mu.Lock()
+		perms[i] = append(perms[i], fmt.Sprintf("%s/%s/%s=%s", common.HexS(us), common.HexS(ps), common.HexS(ids), common.B(v)))
+		mu.Unlock()
+		return v
+	}
+	feat := xmpp.SASLServer(perm, sasl.Plain, echoMech()) // ONE feature value for all sessions
+	res := make([]negResult, n)
+	conns := make([]*nc.Conn, n)
+	for i := 0; i < n; i++ {
+		i := i
+		chunks := []nc.Chunk{nc.S(nc.Header("jabber:client", "", "", "example.net"))}
+		for _, ev := range scripts[i] {
+			x, err := srvEventXML(ev)
+			if err != nil {
+				return err
+			}
+			chunks = append(chunks, nc.Chunk{Dyn: func(w []byte) []byte {
+				S.Park(i, "R")
+				if bytes.Contains(w, []byte("<success")) {
+					return nil
+				}
+				return []byte(x)
+			}})
+		}
+		conns[i] = nc.NewConn(chunks...)
+		S.Start(i, func() { res[i] = negotiate(conns[i], true, feat) })
+	}
+	for _, i := range sched {
+		S.Step(i)
+	}
+	S.Finish()
+	var sl []string
+	for _, s := range scripts {
+		sl = append(sl, common.Join(s, ","))
+	}
+	line := fmt.Sprintf("concm %s %s", schedField(sched), strings.Join(sl, " "))
+	lines := []string{r.Prop + " " + line}
+	var obs []string
+	for i := 0; i < n; i++ {
+		if res[i].panicV != "" {
+			obs = append(obs, "PANIC")
+			r.Fail("server-no-panic", "concurrent-mixed", lines, res[i].panicV)
+			continue
+		}
+		var t trace
+		streams, _ := nc.ParseWritten(conns[i].Written())
+		var sent []string
+		if len(streams) > 0 {
+			for _, e := range streams[0].Elems {
+				switch {
+				case e.Name.Space == nsSASL && e.Name.Local == "success":
+					sent = append(sent, "succ/"+canonPayload(e.Text))
+				case e.Name.Space == nsSASL && e.Name.Local == "failure":
+					cond := "none"
+					if len(e.Kids) > 0 {
+						cond = e.Kids[0].Name.Local
+					}
+					sent = append(sent, "fail/"+cond)
+				case e.Name.Space == nsSASL && e.Name.Local == "challenge":
+					sent = append(sent, "chal/"+canonPayload(e.Text))
+				}
+			}
+		}
+		authn := res[i].called > 0 && res[i].mask&xmpp.Authn != 0
+		obs = append(obs, fmt.Sprintf("%s %s %s %s", common.B(authn), errClass(res[i], &t), common.Join(sent, ","), common.Join(perms[i], ",")))
+		// ---- oracle (independent of the model): a session is authenticated only by its OWN
+		// complete exchange: an <auth/> of its own for PLAIN with the accepted credentials, or
+		// an <auth/> for X-ECHO followed by a <response/>, both decodable
+		own := false
+		sc := scripts[i]
+		if len(sc) >= 1 && sc[0] == "APLAIN/v"+hexOf("\x00user\x00secret") {
+			own = true
+		}
+		if len(sc) >= 2 && strings.HasPrefix(sc[0], "AX-ECHO/") && strings.HasPrefix(sc[1], "R") &&
+			!strings.Contains(sc[0], "bad") && !strings.Contains(sc[1], "bad") {
+			own = true
+		}
+		if authn && !own {
+			r.Fail("sessions-independent", "authenticated-by-another-sessions-exchange", lines,
+				fmt.Sprintf("session %d (script %v) is authenticated although its own exchange is not a complete, accepted one", i, sc))
+		}
+	}
+	if S.Stalled {
+		r.Fail("sessions-no-stall", "server-mixed", lines, "a session did not reach its next yield point: "+strings.Join(S.Trace, " "))
+	}
+	r.Line(line, strings.Join(obs, " ; "))
+	r.Case(line, true, class)
+	return nil
+}
+
+func hexOf(s string) string { return fmt.Sprintf("%x", s) }
+
+var mixedScripts = [][]string{
+	{"AX-ECHO/v" + "616263", "Rv" + strings.Repeat("7a", 40)}, // X-ECHO, short then long
+	{"APLAIN/v" + fmt.Sprintf("%x", "\x00user\x00secret")},    // PLAIN accepted
+	{"Rv01"}, // a bare <response/>
+	{"AX-ECHO/v" + strings.Repeat("31", 64), "Rv02", "Rv03"},       // X-ECHO, long then short, one element too many
+	{"APLAIN/v" + fmt.Sprintf("%x", "\x00user\x00secreX"), "Rv04"}, // PLAIN refused, then a response
+	{"AX-ECHO/-", "R-"}, // X-ECHO with empty messages
+	{"AX-ECHO/v" + "0a0b", "APLAIN/v" + fmt.Sprintf("%x", "\x00u\x00no")}, // a second <auth/> replaces the negotiator
+}
+
+func genConcMixed(r *common.Run, rnd *common.Rand) {
+	if r.Race() {
+		return
+	}
+	// two sessions: every ordered pair of scripts x every interleaving of their elements (each
+	// element and the end of the script is a yield point)
+	for a, sa := range mixedScripts {
+		for b, sb := range mixedScripts {
+			if r.Quick() && (a+b)%2 == 1 && a != 2 && b != 2 {
+				continue
+			}
+			na, nb := len(sa), len(sb)
+			interleave2(na, nb, func(s []int) {
+				_ = runConcMixed(r, s, [][]string{sa, sb}, "conc-mixed2")
+			})
+		}
+	}
+	// three sessions: random triples, random schedules
+	for k := 0; k < r.Pick(40, 400); k++ {
+		var sc [][]string
+		var sched []int
+		for i := 0; i < 3; i++ {
+			s := mixedScripts[rnd.Intn(len(mixedScripts))]
+			sc = append(sc, s)
+			for j := 0; j < len(s); j++ {
+				sched = append(sched, i)
+			}
+		}
+		for i := len(sched) - 1; i > 0; i-- {
+			j := rnd.Intn(i + 1)
+			sched[i], sched[j] = sched[j], sched[i]
+		}
+		_ = runConcMixed(r, sched, sc, "conc-mixed3")
+	}
+}
+
+// interleave2 enumerates every interleaving of na moves of session 0 and nb moves of session 1
+func interleave2(na, nb int, f func([]int)) {
+	var rec func(a, b int, cur []int)
+	rec = func(a, b int, cur []int) {
+		if a == 0 && b == 0 {
+			f(append([]int(nil), cur...))
+			return
+		}
+		if a > 0 {
+			rec(a-1, b, append(cur, 0))
+		}
+		if b > 0 {
+			rec(a, b-1, append(cur, 1))
+		}
+	}
+	rec(na, nb, nil)
 }
